@@ -1151,6 +1151,88 @@ class Interp:
             return VBool(("in", a, s))
         return VBool(cond)
 
+    def divmod_lin(self, st, la, c, floor=False):
+        """(quotient, remainder) of the linear expression la by the positive constant c.  With
+        floor=True la may be negative and the floor quotient / non-negative remainder are meant."""
+        if la.is_const():
+            if floor:
+                return Lin.const(la.c // c), Lin.const(la.c % c)
+            q = (abs(la.c) // c) * (1 if la.c >= 0 else -1)
+            return Lin.const(q), Lin.const(la.c - q * c)
+        ra = st.lin_range(la)
+        if ra.min() < 0 and not floor:
+            raise Unanalysable("division of possibly negative value")
+        # split off the part divisible by c
+        qt, rt = [], []
+        for at, k in la.terms:
+            if k % c == 0:
+                qt.append((at, k // c))
+            else:
+                rt.append((at, k))
+        rest = Lin(rt, la.c) if rt else Lin.const(la.c)
+        if rt:
+            rr = st.lin_range(rest)
+            if rr.min() < 0 and not floor:
+                qt, rest = [], la
+        if rest.is_const():
+            return Lin(qt, rest.c // c), Lin.const(rest.c % c)
+        sa_ = rest.single_atom()
+        if sa_ and sa_[1] > 0 and self.cong_ok(sa_[0]) and st.aset(sa_[0]).size() > 64:
+            # c does not divide the coefficient: decide the residue class of the atom
+            from math import gcd
+            raise NeedCong(sa_[0], c // gcd(sa_[1], c))
+        rr = st.lin_range(rest)
+        if rr.min() < 0:
+            raise Unanalysable("remainder of a possibly negative value")
+        fa = ("fdiv", rest, c, rr.min() // c, rr.max() // c if rr.max() != INF else INF)
+        return Lin(qt, 0) + Lin.atom(fa), Lin.atom(("mod", rest, c))
+
+    def bv_zero_test(self, st, a, b):
+        """`pattern == 0` for a bit pattern compared with the constant 0:
+        - `x & !mask == 0` (only the bits of one atom from position k upwards): x < 2^k;
+        - `x ^ y == 0` (every bit of two atoms XORed pairwise): x == y.
+        None when the pattern has another form."""
+        for x, zero in ((a, b), (b, a)):
+            if x.bv is None or zero.bv is not None:
+                continue
+            lz = lin_of(st, zero)
+            if not (lz.is_const() and lz.c == 0):
+                continue
+            cells = [c for c in x.bv if c != 0]
+            if not cells or any(c == 1 for c in cells):
+                return None
+            if all(isinstance(c, tuple) and not isinstance(c[0], str) for c in cells):
+                atoms = set(c[0] for c in cells)
+                if len(atoms) != 1:
+                    return None
+                atom = next(iter(atoms))
+                bits = sorted(c[1] for c in cells)
+                cur = st.aset(atom)
+                if cur.min() < 0 or cur.max() == INF:
+                    return None
+                top = max(int(cur.max()).bit_length() - 1, bits[-1])
+                k = bits[0]
+                if bits == list(range(k, bits[-1] + 1)) and bits[-1] >= int(cur.max()).bit_length() - 1:
+                    return VBool(("in", atom, IntSet.range(0, (1 << k) - 1)))
+                return None
+            if all(isinstance(c, tuple) and c[0] == "BitXor" and all(isinstance(y, tuple) and not isinstance(y[0], str) for y in c[1:]) and c[1][1] == c[2][1] for c in cells):
+                A = set(c[1][0] for c in cells)
+                B = set(c[2][0] for c in cells)
+                if len(A) != 1 or len(B) != 1:
+                    return None
+                A, B = next(iter(A)), next(iter(B))
+                bits = sorted(c[1][1] for c in cells)
+                n = len(bits)
+                if bits != list(range(n)):
+                    return None
+                for at in (A, B):
+                    cur = st.aset(at)
+                    if cur.min() < 0 or cur.max() == INF or int(cur.max()).bit_length() > n:
+                        return None
+                return self.cmp(st, "Eq", Lin.atom(A), Lin.atom(B))
+            return None
+        return None
+
     def binop(self, st, op, a, b):
         if isinstance(a, VBool) and isinstance(b, VBool):
             if op == "BitAnd":
@@ -1207,41 +1289,27 @@ class Interp:
             la, lb = lin_of(st, a), lin_of(st, b)
             if not lb.is_const() or lb.c <= 0:
                 raise Unanalysable("division by non-constant")
-            c = lb.c
-            ra = st.lin_range(la)
-            if la.is_const():
-                q, m = (abs(la.c) // c) * (1 if la.c >= 0 else -1), None
-                if base == "Div":
-                    return mk_const(q, w, s)
-                return mk_const(la.c - q * c, w, s)
-            if ra.min() < 0:
-                raise Unanalysable("division of possibly negative value")
-            # split off the part divisible by c
-            qt, rt = [], []
-            for at, k in la.terms:
-                if k % c == 0:
-                    qt.append((at, k // c))
-                else:
-                    rt.append((at, k))
-            rest = Lin(rt, la.c) if rt else Lin.const(la.c)
-            if rt:
-                rr = st.lin_range(rest)
-                if rr.min() < 0:
-                    qt, rest = [], la
-            if rest.is_const():
-                qv = Lin(qt, rest.c // c)
-                mv = Lin.const(rest.c % c)
-            else:
-                sa_ = rest.single_atom()
-                if sa_ and sa_[1] > 0 and self.cong_ok(sa_[0]) and st.aset(sa_[0]).size() > 64:
-                    # c does not divide the coefficient: decide the residue class of the atom
-                    from math import gcd
-                    raise NeedCong(sa_[0], c // gcd(sa_[1], c))
-                rr = st.lin_range(rest)
-                fa = ("fdiv", rest, c, rr.min() // c, rr.max() // c if rr.max() != INF else INF)
-                qv = Lin(qt, 0) + Lin.atom(fa)
-                mv = Lin.atom(("mod", rest, c))
+            qv, mv = self.divmod_lin(st, la, lb.c)
             return VInt(w, s, lin=qv if base == "Div" else mv)
+        if base == "BitAnd" and not s and (a.bv is None or b.bv is None):
+            # x & (2^k - 1) on an arithmetic value is x mod 2^k; for a value that wrapped around
+            # 2^w (wrapping_sub) the floor remainder of the unwrapped expression, 2^k dividing 2^w
+            for x, m in ((a, b), (b, a)):
+                lm = lin_of(st, m) if m.bv is None else None
+                if lm is not None and lm.is_const() and lm.c > 0 and (lm.c & (lm.c + 1)) == 0 and lm.c + 1 < (1 << w) and x.bv is None:
+                    lx = lin_of(st, x)
+                    if lx.is_const():
+                        break
+                    sa0 = lx.single_atom()
+                    if sa0 and sa0[1] == 1 and sa0[2] == 0 and sa0[0][0] == "wrap" and isinstance(sa0[0][1], tuple) and sa0[0][1][0] == "lin" \
+                            and sa0[0][2] == 0 and sa0[0][3] == (1 << w) - 1:
+                        lx = Lin(sa0[0][1][1], sa0[0][1][2])
+                    elif st.lin_range(lx).min() < 0:
+                        break
+                    elif st.lin_range(lx).max() <= lm.c:
+                        return VInt(w, s, lin=lx)        # the mask keeps every bit the value can have
+                    qv, mv = self.divmod_lin(st, lx, lm.c + 1, floor=True)
+                    return VInt(w, s, lin=mv)
         if base in ("Lt", "Ge") and s and a.bv is not None and isinstance(b, VInt) and lin_of(st, b).is_const() and lin_of(st, b).c == 0:
             # sign test of a bit pattern (`(num << (32 - len)) < 0`): the top cell decides
             top = a.bv[0]
@@ -1254,6 +1322,10 @@ class Interp:
                 if cur.max() != INF and cur.min() >= 0 and int(cur.max()).bit_length() <= i + 1:
                     neg = ("in", atom, IntSet.range(1 << i, (1 << (i + 1)) - 1))
                     return VBool(neg if base == "Lt" else negate(neg))
+        if base in ("Eq", "Ne"):
+            z = self.bv_zero_test(st, a, b)
+            if z is not None:
+                return z if base == "Eq" else VBool(negate(z.cond))
         if base in ("Eq", "Ne", "Lt", "Le", "Gt", "Ge"):
             return self.cmp(st, base, lin_of(st, a), lin_of(st, b))
         if base in ("BitAnd", "BitOr", "BitXor"):
@@ -1269,13 +1341,16 @@ class Interp:
                 lb = Lin.const(st.lin_set(lb).single())
             if not lb.is_const():
                 sset = st.lin_set(lb)
-                if sset.size() != INF and sset.size() <= 8:
+                if sset.size() != INF and sset.size() <= 16:
                     sa = lb.single_atom()
                     if sa and abs(sa[1]) == 1:
                         at, k, c0 = sa
                         raise NeedSplit(at, [IntSet.of((v - c0) * k) for v in sset.values()])
                 raise Unanalysable("shift by non-constant %r" % (lb,))
             n = lb.c
+            if base == "Shr" and not s and a.bv is None and 0 <= n < w and not lin_of(st, a).is_const() and st.lin_range(lin_of(st, a)).min() >= 0:
+                qv, _ = self.divmod_lin(st, lin_of(st, a), 1 << n)
+                return VInt(w, s, lin=qv)
             if n < 0 or n >= w:
                 tr = ty_range(w, s)
                 return VInt(w, s, lin=Lin.atom(("wrap", ("shift", valkey(a), n), tr.min(), tr.max())))
@@ -2243,8 +2318,60 @@ class Interp:
                 continue
             if not isinstance(rv, VInt):
                 return None
-            out = out.union(s2.lin_set(lin_of(s2, rv)))
+            pw = self.bv_pointwise(s2, rv)
+            out = out.union(pw if pw is not None else s2.lin_set(lin_of(s2, rv)))
         return out
+
+    def bv_pointwise(self, st, rv):
+        """the exact value set of a bit pattern built from the bits of one atom with at most 256
+        possible values (`data | ((!data & 0x20) << 1)`): evaluated value by value"""
+        if rv.bv is None:
+            return None
+        atoms = set()
+
+        def walk(c):
+            if c in (0, 1):
+                return
+            if isinstance(c, tuple) and len(c) == 2 and isinstance(c[1], int) and not isinstance(c[0], str):
+                atoms.add(c[0])
+            elif isinstance(c, tuple) and isinstance(c[0], str):
+                for x in c[1:]:
+                    walk(x)
+            else:
+                raise ValueError
+        try:
+            for c in rv.bv:
+                walk(c)
+        except ValueError:
+            return None
+        if len(atoms) != 1:
+            return None
+        atom = next(iter(atoms))
+        vals = st.aset(atom)
+        if vals.size() == INF or vals.size() > 256 or vals.min() < 0:
+            return None
+
+        def bit(c, v):
+            if c in (0, 1):
+                return c
+            if not isinstance(c[0], str):
+                return (v >> c[1]) & 1
+            if c[0] == "not":
+                return 1 - bit(c[1], v)
+            x, y = bit(c[1], v), bit(c[2], v)
+            return {"BitAnd": x & y, "BitOr": x | y, "BitXor": x ^ y}[c[0]]
+        out = set()
+        for v in vals.values():
+            r = 0
+            for c in rv.bv:
+                r = (r << 1) | bit(c, v)
+            if rv.s and r >= (1 << (rv.w - 1)):
+                r -= 1 << rv.w
+            out.add(r)
+        res = IntSet.empty()
+        for r in sorted(out):
+            res = res.union(IntSet.of(r))
+        return res
 
     def int_range_of(self, st, v):
         if isinstance(v, VInt):
